@@ -358,6 +358,9 @@ def check(ctx, run):  # noqa: F811
     closed_form_precision_rule(ctx, run, "C07.R7", ["d1", "d2", "ncdf", "npdf", "bs_european_price", "bs_european_binary_price", "bs_american_binary_price", "bs_lookback_price"],
                                "float time to maturity / volatility / strike and constants are not rounded to the default dtype")
     derivative_state_precision(ctx, run)
+    from ..ctors import ctor_rule
+    ctor_rule(ctx, run, "C07.R8", ["pfhedge.nn.modules.bs." + c for c in ("european.BSEuropeanOption", "lookback.BSLookbackOption", "american_binary.BSAmericanBinaryOption", "european_binary.BSEuropeanBinaryOption")], None,
+              "the module prices another contract than the one it was created for")
     # R7h: the state the modules read off a derivative is the current one: re-simulating or re-configuring the underlier replaces every series
     from ..registry import reconfigure_rule, resimulation_rule
     reconfigure_rule(ctx, run, "C07.R7h")
